@@ -35,9 +35,10 @@ type PathSample struct {
 
 type ViolationOut struct {
 	interp.Violation
-	Prefix []int         `json:"prefix"`
-	Decls  []interp.Decl `json:"decls"`
-	Count  int           `json:"count"`
+	Prefix []int          `json:"prefix"`
+	Decls  []interp.Decl  `json:"decls"`
+	Count  int            `json:"count"`
+	Alts   []ViolationOut `json:"alts,omitempty"` // further instances of the same violation (other paths)
 }
 
 type Result struct {
@@ -197,6 +198,9 @@ func main() {
 					key := v.Kind + "|" + v.Label + "|" + v.Shape + "|" + v.Site
 					if old, ok := viol[key]; ok {
 						old.Count++
+						if len(old.Alts) < 3 {
+							old.Alts = append(old.Alts, ViolationOut{Violation: v, Prefix: picks(r.Trace), Decls: r.Decls, Count: 1})
+						}
 						continue
 					}
 					viol[key] = &ViolationOut{Violation: v, Prefix: picks(r.Trace), Decls: r.Decls, Count: 1}
